@@ -162,6 +162,61 @@ pub fn unpack(m: &Model, ctx: &mut Ctx, rule: &str) {
     }
 }
 
+/// C06.signed: the PER-visible bounds of an INTEGER are folded with `signed = true` (an absent lower bound is MIN, not 0 — 0
+/// is the default for sizes). Every call of per_visible_range_constraints / format_range_annotations whose constraints are an
+/// INTEGER's passes `true` (or the test "is this an INTEGER"): with `false`, `INTEGER (MIN..10)` is typed and annotated as
+/// 0..10.
+pub fn signed_flag(m: &Model, ctx: &mut Ctx, rule: &str) {
+    let mut sites = 0;
+    for f in m.fns.iter().filter(|f| f.krate == "rasn-compiler" && f.module.starts_with("generator::rasn") && !f.module.contains("tests")) {
+        // match arms binding an INTEGER payload: `ASN1Type::Integer(i)` -> `i`
+        let mut int_bindings: Vec<String> = vec![];
+        for mt in crate::model::matches_in(&f.block) {
+            for a in &mt.arms {
+                let p = tok(&a.pat);
+                if let Some(rest) = p.split("ASN1Type::Integer(").nth(1) {
+                    let b = rest.split(')').next().unwrap_or("").trim_start_matches("ref ").trim_start_matches("mut ").to_string();
+                    if !b.is_empty() && b != "_" {
+                        int_bindings.push(b);
+                    }
+                }
+            }
+        }
+        let b = tok(&f.block);
+        if b.contains("if let ASN1Type::Integer(ref int)=") || b.contains("if let ASN1Type::Integer(int)=") {
+            int_bindings.push("int".into());
+        }
+        let mut calls: Vec<(String, Vec<String>, usize)> = vec![];
+        for c in crate::model::calls_in(&f.block) {
+            if crate::model::callee_name(&c).as_deref() == Some("per_visible_range_constraints") {
+                calls.push(("per_visible_range_constraints".into(), c.args.iter().map(|a| tok(a)).collect(), crate::rules::util::span_line(&c)));
+            }
+        }
+        for mc in crate::model::method_calls_in(&f.block) {
+            if mc.method == "format_range_annotations" {
+                calls.push(("format_range_annotations".into(), mc.args.iter().map(|a| tok(a)).collect(), crate::rules::util::span_line(&mc)));
+            }
+        }
+        for (callee, args, line) in calls {
+            if args.len() != 2 {
+                continue;
+            }
+            let on_integer = int_bindings.iter().any(|b| args[1] == format!("&{}.constraints", b) || args[1] == format!("{}.constraints()", b) || args[1] == format!("&{}.constraints()", b));
+            if !on_integer {
+                continue;
+            }
+            sites += 1;
+            ctx.oblige(rule, &format!("{}:{}", f.name, callee), true);
+            let ok = args[0] == "true" || (args[0].starts_with("matches!(") && args[0].contains("ASN1Type::Integer("));
+            if !ok {
+                ctx.violate(rule, &format!("integer-bounds-folded-unsigned:{}", f.name), &f.file, line,
+                    &format!("{} calls {}({}, {}): the constraints are an INTEGER's, whose absent lower bound is MIN — folded as unsigned, `INTEGER (MIN..10)` gets the lower bound 0 (and an unsigned Rust type)", f.name, callee, args[0], args[1]));
+            }
+        }
+    }
+    ctx.floor(&format!("{}/integer-sites", rule), sites, 2);
+}
+
 pub fn run(m: &Model, ctx: &mut Ctx) {
     ctx.explanation = "C06.tree: both width selectors (found by content: fns that compare against >= 3 fixed-width MIN/MAX constants — Rasn::int_type_token and Constraint::integer_constraints) \
 are evaluated abstractly on their syntax tree over the region partition of Z induced by the constants they mention (order-only use of the inputs is enforced; arithmetic on an input fails closed). \
@@ -226,6 +281,7 @@ Not decided: that the (min, max) handed to the selector is the true hull of the 
     literal(m, ctx);
     named_first(m, ctx, "C06.named");
     unpack(m, ctx, "C06.unpack");
+    signed_flag(m, ctx, "C06.signed");
     crate::rules::c07::named_lookup(m, ctx, "C06.named");
     agree(m, ctx, "C06.agree");
 }
